@@ -7,6 +7,7 @@ import (
 	"encoding/json"
 	"errors"
 	"fmt"
+	"math"
 	"math/rand"
 	"strconv"
 	"strings"
@@ -107,12 +108,31 @@ func refParse(b []byte) (int64, bool) {
 }
 
 func runParse(c parseCase, r *pb.Rec) error {
-	in := append([]byte(nil), c.B...)
+	in, intact := g.WindowBytes(c.B, len(c.B))
 	got, err := randz.ParseBase32(in)
 	want, ok := refParse(c.B)
 	if !bytes.Equal(in, c.B) {
 		return fmt.Errorf("input modified")
 	}
+	if e := intact(); e != nil {
+		return fmt.Errorf("ParseBase32(%q): %v", c.B, e)
+	}
+	// the caller's buffer is reused in place for the next texts (a read buffer): same memory, other content
+	for k := 0; k < 3 && len(in) > 0; k++ {
+		pos := (len(in)*7 + k) % len(in)
+		switch k {
+		case 0, 2:
+			in[pos] = alphabet[(int(in[pos])+k+1)%32] // another digit of the alphabet
+		case 1:
+			in[pos] = "!Il ~\x80\x00O"[len(in)%8] // a byte outside the alphabet
+		}
+		g2, e2 := randz.ParseBase32(in)
+		w2, ok2 := refParse(in)
+		if ok2 != (e2 == nil) || (!ok2 && !errors.Is(e2, randz.ErrInvalidBase32)) || (ok2 && len(in) <= 12 && int64(g2) != w2) {
+			return fmt.Errorf("ParseBase32(%q) = %d, %v (reference: %d, valid %v); the same buffer held %q at the previous call", in, g2, e2, w2, ok2, c.B)
+		}
+	}
+	in = append([]byte(nil), c.B...)
 	if !ok {
 		if !errors.Is(err, randz.ErrInvalidBase32) {
 			return fmt.Errorf("ParseBase32(%q) = %d, %v; want ErrInvalidBase32", c.B, got, err)
@@ -410,6 +430,14 @@ func genCount(t *rapid.T) countCase {
 }
 
 func runCount(c countCase, r *pb.Rec) error {
+	if math.MaxInt == math.MaxInt32 {
+		// 32-bit int: counts are elapsed time x increment; rule sets whose counts would not fit are outside the domain there
+		for _, ru := range c.Rules {
+			if int64(max(ru[0], 1100002))*int64(max(ru[1], ru[3])) > 1<<27 {
+				return nil
+			}
+		}
+	}
 	var gen randz.CountGenerator
 	for _, ru := range c.Rules {
 		gen.AddRule(ru[0], ru[1], ru[2], ru[3])
